@@ -86,6 +86,7 @@ func New(prop, level string) *Run {
 		}
 	}
 	r.loadKnown()
+	current = r
 	return r
 }
 
@@ -386,7 +387,7 @@ func Parallel(n int, fn func(i int)) {
 	}
 	if w <= 1 {
 		for i := 0; i < n; i++ {
-			fn(i)
+			guarded(fn, i)
 		}
 		return
 	}
@@ -405,12 +406,38 @@ func Parallel(n int, fn func(i int)) {
 				if i >= n {
 					return
 				}
-				fn(i)
+				guarded(fn, i)
 			}
 		}()
 	}
 	wg.Wait()
 }
+
+// guarded runs fn(i); a panic that escapes a check's worker (the code under test panicked outside a
+// Case) is recorded as a failure of the running check instead of crashing it.
+func guarded(fn func(i int), i int) {
+	defer func() {
+		if p := recover(); p != nil {
+			st := string(debug.Stack())
+			frame := "unknown"
+			for _, l := range strings.Split(st, "\n") {
+				if strings.HasPrefix(l, "github.com/") && strings.Contains(l, "(") {
+					frame = l[:strings.LastIndex(l, "(")]
+					break
+				}
+			}
+			if current != nil {
+				current.Report(fmt.Sprintf("worker-item-%d", i), Fail{Key: "panic/" + frame, What: fmt.Sprintf("the code under test panicked: %v (first library frame %s)", p, frame),
+					Detail: map[string]any{"panic": fmt.Sprint(p), "stack": st}})
+			} else {
+				panic(p)
+			}
+		}
+	}()
+	fn(i)
+}
+
+var current *Run
 
 // Sequential has Parallel's signature but runs in order on the calling goroutine.
 func Sequential(n int, fn func(i int)) {
